@@ -81,9 +81,20 @@ IPv4 but 65527 over IPv6: only the adapter's check makes the limit the declared 
 theorem udp_size_limit_exact_m8 (w : Mio.Udp.World) (h : Mio.Udp.Reachable w) (ep : Mio.Udp.Endpoint)
     (s : Mio.Udp.Sock) (data : Bytes) (hs : w.socks[ep.rid]? = some s) (hk : s.kind ≠ .raw) :
     ((Mio.Udp.send w ep data).2 = .maxPacketSizeExceeded ↔ data.length > udpMaxLocalPayloadLen) ∧
-    ((Mio.Udp.send w ep data).2 = .sent ↔ data.length ≤ udpMaxLocalPayloadLen) ∧
+    ((Mio.Udp.send w ep data).2 = .sent ↔
+      data.length ≤ udpMaxLocalPayloadLen ∧ ¬ ((∃ p, s.kind = .connected p) ∧ s.err = true)) ∧
     (data.length > udpMaxLocalPayloadLen → (Mio.Udp.send w ep data).1.socks = w.socks) :=
   Mio.C12.size_status w (Mio.C12.kernel_admits_declared_maximum w h) ep s data hs hk
+
+/-- `Sent` is truthful on the one path where the kernel refuses a datagram it was handed: a connected
+socket with a pending ICMP error answers `ResourceNotFound` and nothing is transmitted -/
+theorem udp_refused_is_not_sent (w : Mio.Udp.World) (h : Mio.Udp.Reachable w) (ep : Mio.Udp.Endpoint)
+    (s : Mio.Udp.Sock) (p : Nat) (data : Bytes) (hs : w.socks[ep.rid]? = some s) (hk : s.kind = .connected p)
+    (he : s.err = true) (hl : data.length ≤ udpMaxLocalPayloadLen) :
+    (Mio.Udp.send w ep data).2 = .resourceNotFound ∧
+    ∀ j : Nat, ((Mio.Udp.send w ep data).1.socks[j]?).map Mio.Udp.Sock.queue = (w.socks[j]?).map Mio.Udp.Sock.queue :=
+  Mio.C12.refused_send_transmits_nothing w ep s p data hs hk he
+    (Nat.le_trans hl (Mio.C12.kernel_admits_declared_maximum w h)) hl
 
 /-! Non-vacuity: a send to a pending connection, then to the established one, then after removal. -/
 example : ∃ s, run {} [.connect 1, .send 0 .sent, .pollRemote 0 false, .pending .ready, .beginReceive 0 false,
